@@ -131,7 +131,8 @@ def _history_x(rng, n):
 class _GX(gen.G):
     """Base program generator, except that the conditions of `when` / `or when` (the base generator builds them without the
     flow index) may use what a top-level `match` may — in particular flow-object events `fx.Started()/.Finished()/.Failed()`
-    of flows that SOMEBODY ELSE started — and that such events are frequent. A `when` condition is evaluated inside a scope:
+    of flows that SOMEBODY ELSE started — and that such events are frequent; plus `send $ref.Stop()`, StopFlow / FinishFlow by
+    `flow_instance_uid`, and `deactivate`. A `when` condition is evaluated inside a scope:
     a FlowStarted event matched there registers the (foreign) flow in the scope of the matching flow, which stays open while
     the rest of an `and` group is still waiting."""
 
@@ -139,6 +140,28 @@ class _GX(gen.G):
 
     def stmt(self, fi, depth, in_loop=False):
         self._fi = fi
+        r = self.rng
+        # control events addressed to ONE flow instance through a reference (`start fx as $f` ... `send $f.Stop()`): the
+        # by-uid branches of StopFlow / FinishFlow (the base generator addresses flows by name only)
+        frefs = [v for v in self.pending_refs if v.startswith("f")]
+        if frefs and r.random() < 0.2:
+            v = r.choice(frefs)
+            self.feats.add("stop-by-ref")
+            return ["raw", r.choice([f"send ${v}.Stop()", f"send ${v}.Stop()", f"send StopFlow(flow_instance_uid=${v}.uid)",
+                                     f"send FinishFlow(flow_instance_uid=${v}.uid)"])]
+        if not frefs and r.random() < 0.08:
+            j = self.callee(fi)
+            if j is not None:
+                name, args = self.flow_call(j)
+                ref = self.var("f")
+                self.pending_refs.append(ref)
+                self.feats.add("start-flow")
+                return ["start_flow", name, args, ref]
+        if r.random() < 0.03:
+            j = self.callee(fi)
+            if j is not None:
+                self.feats.add("deactivate")
+                return ["raw", "deactivate " + self.flows_meta[j]["name"]]
         s = super().stmt(fi, depth, in_loop)
         self._fi = fi
         return s
